@@ -2471,8 +2471,11 @@ func (p *Parser) ParseOptionalTokenAndInt(t Token) (int, error) {
 	}
 
 	// Parse number.
-	n, _ := strconv.ParseInt(lit, 10, 64)
-	if n < 0 {
+	n, err := strconv.ParseInt(lit, 10, 64)
+	if err != nil {
+		msg := fmt.Sprintf("unable to parse integer for %s", t.String())
+		return 0, &ParseError{Message: msg, Pos: pos}
+	} else if n < 0 {
 		msg := fmt.Sprintf("%s must be >= 0", t.String())
 		return 0, &ParseError{Message: msg, Pos: pos}
 	}
